@@ -21,6 +21,12 @@ pid_t __real_waitpid(pid_t, int *, int);
 int __real_kill(pid_t, int);
 int __real_unlink(const char *);
 int __real_access(const char *, int);
+void __real__exit(int) __attribute__((noreturn));
+int __real_sigprocmask(int, const sigset_t *, sigset_t *);
+int __real_pthread_sigmask(int, const sigset_t *, sigset_t *);
+int __real_sigaction(int, const struct sigaction *, struct sigaction *);
+void (*__real_signal(int, void (*)(int)))(int);
+void (*__real___sysv_signal(int, void (*)(int)))(int);
 int __real_mkstemp(char *);
 ssize_t __real_readlink(const char *, char *, size_t);
 void *__real_malloc(size_t);
@@ -127,6 +133,8 @@ struct Proc {
 	int stop_at = -1, stop_len = 0;   // SIGSTOP at own step stop_at for stop_len scheduler steps
 	int stop_left = 0;
 	bool stop_unreported = false;
+	uint64_t sigmask = 0;            // inherited from the driver at spawn time
+	uint64_t blocked_pending = 0;
 };
 
 struct Kernel {
@@ -163,6 +171,8 @@ struct Kernel {
 	int last_spawn_ok_step = -1;
 	std::vector<void (*)(void)> atexit_handlers;
 	bool exiting = false;
+	uint64_t sigmask = 0;          // signals the driver has blocked; inherited by every child it spawns
+	bool sigchld_ign = false;      // SIGCHLD disposition of the driver
 
 	void logf(const char *fmt, ...) {
 		char buf[2048];
@@ -253,6 +263,7 @@ void Kernel::die(Proc &p, int wstatus, bool failed, bool planned, const char *wh
 	p.death_step = step;
 	p.fds.clear();
 	logf("  [%d] pid %d %s dies: %s (wstatus 0x%x)", step, p.pid, p.stray ? "stray" : stage_name[p.kind], why, wstatus);
+	if (sigchld_ign) { p.state = REAPED; probe("child_reaped_by_kernel_sigchld_ignored"); }
 	if (failed && !p.stray) {
 		if (first_failure_step < 0) first_failure_step = step;
 		if (planned) fire(std::string("tool:") + mode_name[p.mode]);
@@ -628,6 +639,7 @@ int __wrap_posix_spawnp(pid_t *pidp, const char *file, const posix_spawn_file_ac
 	else p.group = K->next_group++;
 	if (ev.out_kind == FD_PIPEW) K->pipes[ev.out_pipe].group = p.group;
 	for (auto &pl : K->sc->plans) if (pl.kind == kind && pl.occ == p.occ) { p.mode = pl.mode; p.param = pl.param; p.code = pl.mode == M_SIGSEGV ? (pl.code ? pl.code : (SIGSEGV | 0x80)) : (pl.code ? pl.code : 1); }
+	p.sigmask = K->sigmask;
 	for (auto &sp : K->sc->stops) if (sp.kind == kind && sp.occ == p.occ) { p.stop_at = sp.at; p.stop_len = sp.duration; }
 	ev.pid = p.pid; ev.ok = true; ev.group = p.group;
 	K->spawns.push_back(ev);
@@ -705,8 +717,64 @@ int __wrap_kill(pid_t pid, int sig) {
 	if (p->stray) K->violation("C18/I5 signalled-stray", "driver signalled a child it did not spawn");
 	K->logf("[%d] kill(%d, %d) state=%d", K->step, (int)pid, sig, p->state);
 	if (p->state == ZOMBIE) { K->probe("tool_already_zombie_when_killed"); return 0; }
+	if (sig > 0 && sig < 64 && sig != SIGKILL && sig != SIGSTOP && (p->sigmask >> sig & 1)) {
+		// the tool inherited a signal mask that blocks this signal (posix_spawn without attributes keeps the
+		// caller's mask) and, like every ordinary tool, never unblocks it: the signal stays pending for ever
+		p->blocked_pending |= 1ULL << sig;
+		K->probe("signal_sent_to_child_that_inherited_it_blocked");
+		return 0;
+	}
 	if (sig != 0 && !p->pending_sig) p->pending_sig = sig;
 	return 0;
+}
+
+int __wrap_sigprocmask(int how, const sigset_t *set, sigset_t *old) {
+	if (!IN_DRIVER) return __real_sigprocmask(how, set, old);
+	K->enter("sigprocmask");
+	if (old) {
+		sigemptyset(old);
+		for (int s2 = 1; s2 < 64; s2++) if (K->sigmask >> s2 & 1) sigaddset(old, s2);
+	}
+	if (set) {
+		uint64_t m = 0;
+		for (int s2 = 1; s2 < 64; s2++) if (sigismember(set, s2) == 1) m |= 1ULL << s2;
+		m &= ~((1ULL << SIGKILL) | (1ULL << SIGSTOP));
+		if (how == SIG_BLOCK) K->sigmask |= m;
+		else if (how == SIG_UNBLOCK) K->sigmask &= ~m;
+		else if (how == SIG_SETMASK) K->sigmask = m;
+		else { errno = EINVAL; return -1; }
+	}
+	K->logf("[%d] sigprocmask(%d) -> mask %llx", K->step, how, (unsigned long long)K->sigmask);
+	return 0;
+}
+int __wrap_pthread_sigmask(int how, const sigset_t *set, sigset_t *old) {
+	if (!IN_DRIVER) return __real_pthread_sigmask(how, set, old);
+	return __wrap_sigprocmask(how, set, old) == 0 ? 0 : errno;
+}
+// the driver's own dispositions: nothing is ever delivered to the driver in the simulation, but
+// resetting SIGCHLD to its default undoes an inherited SIG_IGN
+int __wrap_sigaction(int sig, const struct sigaction *act, struct sigaction *old) {
+	if (!IN_DRIVER) return __real_sigaction(sig, act, old);
+	K->enter("sigaction");
+	if (old) { memset(old, 0, sizeof *old); old->sa_handler = sig == SIGCHLD && K->sigchld_ign ? SIG_IGN : SIG_DFL; }
+	if (act && sig == SIGCHLD) K->sigchld_ign = act->sa_handler == SIG_IGN;
+	K->logf("[%d] sigaction(%d)", K->step, sig);
+	return 0;
+}
+typedef void (*sighandler_fn)(int);
+sighandler_fn __wrap_signal(int sig, sighandler_fn h);
+// with -std=c99 and _POSIX_C_SOURCE glibc maps signal() to __sysv_signal()
+sighandler_fn __wrap___sysv_signal(int sig, sighandler_fn h) {
+	if (!IN_DRIVER) return __real___sysv_signal(sig, h);
+	return __wrap_signal(sig, h);
+}
+sighandler_fn __wrap_signal(int sig, sighandler_fn h) {
+	if (!IN_DRIVER) return __real_signal(sig, h);
+	K->enter("signal");
+	sighandler_fn prev = sig == SIGCHLD && K->sigchld_ign ? SIG_IGN : SIG_DFL;
+	if (sig == SIGCHLD) K->sigchld_ign = h == SIG_IGN;
+	K->logf("[%d] signal(%d)", K->step, sig);
+	return prev;
 }
 
 int __wrap_mkstemp(char *tmpl) {
@@ -792,6 +860,16 @@ void __wrap_exit(int status) {
 	_exit(status);
 }
 
+void __wrap__exit(int status) {
+	if (K && K->in_driver) {
+		// _exit: no atexit handlers
+		K->exit_status = status & 0xff;
+		K->logf("[%d] _exit(%d)", K->step, status);
+		longjmp(K->jb, 1);
+	}
+	__real__exit(status);
+}
+
 void *__wrap_malloc(size_t n) {
 	if (K && K->in_driver) {
 		if (int e = K->fault("alloc")) { errno = e; return nullptr; }
@@ -843,7 +921,8 @@ RunResult simulate(const Scenario &sc) {
 
 	Proc drv;
 	drv.pid = 1;
-	drv.fds[0] = FdEnt{FD_TTYIN, -1, false};
+	if (!sc.stdin_closed) drv.fds[0] = FdEnt{FD_TTYIN, -1, false};
+	K->sigchld_ign = sc.sigchld_ignored;
 	drv.fds[1] = FdEnt{FD_TTYOUT, -1, false};
 	drv.fds[2] = FdEnt{FD_TTYERR, -1, false};
 	K->procs.push_back(drv);
@@ -979,7 +1058,7 @@ RunResult simulate(const Scenario &sc) {
 				else viol("C17/argv " + tag, "expected:" + want + "  got: " + join(ev.argv));
 			}
 			// provenance
-			bool in_ok = es.stdin_driver ? ev.in_kind == FD_TTYIN : (ev.in_kind == FD_PIPER && ev.in_pipe == prev_out_pipe && prev_out_pipe >= 0);
+			bool in_ok = es.stdin_driver ? ev.in_kind == (sc.stdin_closed ? FD_NONE : FD_TTYIN) : (ev.in_kind == FD_PIPER && ev.in_pipe == prev_out_pipe && prev_out_pipe >= 0);
 			bool out_ok = es.stdout_driver ? ev.out_kind == FD_TTYOUT : ev.out_kind == FD_PIPEW;
 			if (ev.ok || ev.err == 0) {
 				if (!in_ok) viol("C17/wiring-stdin " + tag, "stdin of " + join(ev.argv) + " is kind " + std::to_string(ev.in_kind) + " pipe " + std::to_string(ev.in_pipe));
@@ -1096,8 +1175,10 @@ RunResult simulate(const Scenario &sc) {
 		// I4: no temporaries at exit, in every outcome (not for the relaxed configuration)
 		if (!K->hang && !(relaxed && relaxed_fired))
 			for (auto &m : K->mkstemp_paths) if (K->paths.count(m)) viol(any_failure ? (link_failure && !pipeline_failure ? "C18/I7 temp-left-after-link-failure" : "C18/I4 temp-left-after-failure") : "C18/I4 temp-left-after-success", "temporary " + m + " still exists at driver exit");
-		// I5: every spawned child reaped
-		if (!K->hang)
+		// I5: every spawned child reaped (not judged when the driver itself ran out of memory or temporaries: non-deciding)
+		if (relaxed && relaxed_fired) {
+			for (size_t i = 1; i < K->procs.size(); i++) if (!K->procs[i].stray && K->procs[i].state != REAPED) K->probe("relaxed:children_left_after_driver_resource_fault");
+		} else if (!K->hang)
 			for (size_t i = 1; i < K->procs.size(); i++) {
 				Proc &p = K->procs[i];
 				if (p.stray) continue;
